@@ -827,6 +827,8 @@ class Gen(object):
         self.cur_dt = 0.01
         self.c04gen = c04mod.OpGen(None, rng, dict(config, seed=config.get("seed", 0)))
         self.started = False
+        self.last_call = None
+        self.sibling_call = None
         self.force_rec = None
         self.names = sorted(TABLE)
 
@@ -894,6 +896,7 @@ class Gen(object):
                 self.queue.append(lambda w: self.g_call(w, sw["fn"]))
             self.queue.append(lambda w: self.g_read(w))
             self.queue.append(lambda w: self.g_call(w, sw["fn"]))
+            self._queue_siblings()
             return
         route = sw["route"]
         if route in ("Signal()", "AccSignal()"):
@@ -929,6 +932,13 @@ class Gen(object):
         self.queue.append(lambda w: self.g_write(w))
         self.queue.append(lambda w: follow(w, "inplace:" + rng.choice(INPLACE)))
         self.queue.append(lambda w: self.g_read(w))
+
+    def _queue_siblings(self):
+        """call X; call sibling(X); call another grid; X again; sibling again (later-repeat I5 compares the pairs)."""
+        self.queue.append(lambda w: self.g_sibling(w))
+        self.queue.append(lambda w: dict(self.last_call) if self.last_call else None)
+        self.queue.append(lambda w: dict(self.sibling_call) if self.sibling_call else None)
+        self.queue.append(lambda w: dict(self.last_call) if self.last_call else None)
 
     def _plan(self, world):
         rng = self.rng
@@ -1183,7 +1193,10 @@ class Gen(object):
                 return {"op": "call", "f": old["f"], "args": old["args"], "kwargs": old["kwargs"], "again": True}
             if rng.random() < 0.15:
                 return self.g_read(world)     # cache fills between calls
-            return self.g_call(world)
+            op = self.g_call(world)
+            if op is not None and rng.random() < 0.2:
+                self._queue_siblings()
+            return op
         r = (r - pc) / (1 - pc)
         if r < 0.10:
             return self.g_buf() if self.nb < 6 else self.g_write(world)
@@ -1226,7 +1239,35 @@ class Gen(object):
         if spec is None:
             return None
         args, kwargs = spec
-        return {"op": "call", "f": name, "args": args, "kwargs": kwargs}
+        self.last_call = {"op": "call", "f": name, "args": args, "kwargs": kwargs}
+        return dict(self.last_call)
+
+    def g_sibling(self, world):
+        """The previous call with one secondary array argument replaced by a sibling: same length, same first and last
+        entry, different interior.  A memo keyed too coarsely confuses the two."""
+        import copy as _copy
+        if not self.last_call:
+            return None
+        op = _copy.deepcopy(self.last_call)
+
+        def eligible(x):
+            return isinstance(x, dict) and isinstance(x.get("arr"), dict) and x["arr"].get("nd") == "f8" and \
+                isinstance(x["arr"]["v"], list) and len(x["arr"]["v"]) >= 3 and not isinstance(x["arr"]["v"][0], list)
+        slots = [a for a in op["args"][1:] if eligible(a)] + [v for v in op["kwargs"].values() if eligible(v)]
+        if not slots:
+            return None
+        t = self.rng.choice(slots)
+        v = t["arr"]["v"]
+        lo, hi = v[0], v[-1]
+        inner = [round(lo + (hi - lo) * ((i + 1) / (len(v) - 1)) ** 2, 6) for i in range(len(v) - 2)]
+        new = [lo] + inner + [hi]
+        if new == v:
+            new = [lo] + [round(lo + (hi - lo) * ((i + 1) / (len(v) - 1)) ** 0.5, 6) for i in range(len(v) - 2)] + [hi]
+        if new == v:
+            return None
+        t["arr"]["v"] = new
+        self.sibling_call = op
+        return dict(op)
 
     # recipe helpers --------------------------------------------------------------------------------
     def some(self, kw):
